@@ -14,6 +14,7 @@ import (
 	"mambasim/driver"
 	"mambasim/gutil"
 	"mambasim/model"
+	"mambasim/tape"
 )
 
 const budget = 300_000_000
@@ -97,10 +98,10 @@ func (a answer) String() string {
 func genGraph(r *driver.Run, n int, prev *model.G) (*model.G, string) {
 	t := r.T
 	g := model.NewG(n)
-	fam := t.Draw(19)
+	fam := t.Draw(22)
 	if n > 16 {
 		// large graphs: only families on which both the labelling and the brute-force oracle stay cheap
-		fam = []int{2, 4, 5, 9, 10, 11, 8, 17}[t.Draw(8)]
+		fam = []int{2, 4, 5, 9, 10, 11, 8, 17, 19}[t.Draw(9)]
 	}
 	name := ""
 	switch fam {
@@ -157,33 +158,29 @@ func genGraph(r *driver.Run, n int, prev *model.G) (*model.G, string) {
 			}
 		}
 		sw := t.Draw(4 * n)
-		for k := 0; k < sw && n >= 4; k++ {
-			a, c := t.Draw(n), t.Draw(n)
-			var na, nc []int
-			for u := 0; u < n; u++ {
-				if g.Has(a, u) {
-					na = append(na, u)
-				}
-				if g.Has(c, u) {
-					nc = append(nc, u)
-				}
-			}
-			if len(na) == 0 || len(nc) == 0 {
-				continue
-			}
-			b, d := na[t.Draw(len(na))], nc[t.Draw(len(nc))]
-			// edges a-b and c-d become a-c... no: a-d and c-b (keeps all degrees)
-			if a == c || a == d || b == c || b == d || g.Has(a, d) || g.Has(c, b) {
-				continue
-			}
-			g.Adj[a] &^= 1 << uint(b)
-			g.Adj[b] &^= 1 << uint(a)
-			g.Adj[c] &^= 1 << uint(d)
-			g.Adj[d] &^= 1 << uint(c)
-			g.Add(a, d)
-			g.Add(c, b)
+		if t.Chance(1, 2) {
+			sw = t.Draw(4) // nearly symmetric: most of the circulant's group survives in pieces
 		}
+		switchEdges(t, g, sw)
 		name = fmt.Sprintf("random %d-regular graph (%d switches)", 2*half, sw)
+	case 19, 20, 21:
+		name = symmetricGraph(t, g)
+		sw := t.Draw(3)
+		switchEdges(t, g, sw)
+		if t.Chance(1, 4) && n >= 2 {
+			// one edge toggled
+			a, b := t.Draw(n), t.Draw(n)
+			if a != b {
+				if g.Has(a, b) {
+					g.Adj[a] &^= 1 << uint(b)
+					g.Adj[b] &^= 1 << uint(a)
+				} else {
+					g.Add(a, b)
+				}
+				name += " with one pair toggled"
+			}
+		}
+		name += fmt.Sprintf(" (%d switches)", sw)
 	case 13:
 		// complete multipartite with random part sizes (large groups, dense)
 		part := make([]int, n)
@@ -322,6 +319,116 @@ func genGraph(r *driver.Run, n int, prev *model.G) (*model.G, string) {
 		name += " (relabelled)"
 	}
 	return g, name
+}
+
+// switchEdges performs up to sw degree-preserving edge switches (a-b, c-d become a-d, c-b).
+func switchEdges(t *tape.Tape, g *model.G, sw int) {
+	n := g.N
+	for k := 0; k < sw && n >= 4; k++ {
+		a, c := t.Draw(n), t.Draw(n)
+		var na, nc []int
+		for u := 0; u < n; u++ {
+			if g.Has(a, u) {
+				na = append(na, u)
+			}
+			if g.Has(c, u) {
+				nc = append(nc, u)
+			}
+		}
+		if len(na) == 0 || len(nc) == 0 {
+			continue
+		}
+		b, d := na[t.Draw(len(na))], nc[t.Draw(len(nc))]
+		if a == c || a == d || b == c || b == d || g.Has(a, d) || g.Has(c, b) {
+			continue
+		}
+		g.Adj[a] &^= 1 << uint(b)
+		g.Adj[b] &^= 1 << uint(a)
+		g.Adj[c] &^= 1 << uint(d)
+		g.Adj[d] &^= 1 << uint(c)
+		g.Add(a, d)
+		g.Add(c, b)
+	}
+}
+
+// symmetricGraph builds a named vertex-transitive (or nearly so) graph on at most n vertices, the rest
+// isolated: deep search trees with many equivalent leaves, where the pruning by discovered
+// automorphisms does most of the work.
+func symmetricGraph(t *tape.Tape, g *model.G) string {
+	n := g.N
+	kind := t.Draw(7)
+	m := n / 2
+	switch {
+	case kind == 2 && n >= 4:
+		d := 2
+		for 1<<uint(d+1) <= n {
+			d++
+		}
+		for x := 0; x < 1<<uint(d); x++ {
+			for b := 0; b < d; b++ {
+				g.Add(x, x^(1<<uint(b)))
+			}
+		}
+		return fmt.Sprintf("hypercube Q%d", d)
+	case kind == 3 && n >= 10:
+		for i := 0; i < 5; i++ {
+			g.Add(i, (i+1)%5)
+			g.Add(i, 5+i)
+			g.Add(5+i, 5+(i+2)%5)
+		}
+		return "Petersen graph"
+	case kind == 4 && n >= 9:
+		a := 3
+		b := n / 3
+		if b > 5 {
+			b = 3 + t.Draw(3)
+		}
+		for x := 0; x < a; x++ {
+			for y := 0; y < b; y++ {
+				g.Add(x*b+y, ((x+1)%a)*b+y)
+				if b >= 3 {
+					g.Add(x*b+y, x*b+(y+1)%b)
+				}
+			}
+		}
+		return fmt.Sprintf("torus C%d x C%d", a, b)
+	case kind == 5 && n >= 5:
+		q := 5
+		if n >= 13 {
+			q = 13
+		}
+		sq := map[int]bool{}
+		for x := 1; x < q; x++ {
+			sq[x*x%q] = true
+		}
+		for x := 0; x < q; x++ {
+			for y := 0; y < x; y++ {
+				if sq[(x-y)%q] {
+					g.Add(x, y)
+				}
+			}
+		}
+		return fmt.Sprintf("Paley graph on %d vertices", q)
+	case kind == 1 && m >= 2:
+		for i := 0; i < 2*m; i++ {
+			g.Add(i, (i+1)%(2*m))
+			g.Add(i, (i+m)%(2*m))
+		}
+		return fmt.Sprintf("Moebius ladder on %d vertices", 2*m)
+	case m >= 3:
+		// generalised Petersen graph GP(m, k); k = 1 is the prism
+		k := 1
+		if kind == 6 && m >= 5 {
+			k = 1 + t.Draw((m-1)/2)
+		}
+		for i := 0; i < m; i++ {
+			g.Add(i, (i+1)%m)
+			g.Add(i, m+i)
+			g.Add(m+i, m+(i+k)%m)
+		}
+		return fmt.Sprintf("generalised Petersen graph GP(%d,%d)", m, k)
+	}
+	return "too small for a symmetric family: edgeless"
 }
 
 func toDense(g *model.G) *graph.DenseGraph {
@@ -641,7 +748,7 @@ func main() {
 		Property: "C02",
 		Engine:   "canon-service",
 		Level:    "exploration",
-		Rule: "a case is one seeded history of up to 14 labelling requests through ONE reused CanonicalStorage/CanonicalOrderedPartition/CanonicalOptions triple of tape-chosen capacity N <= 9 (one history in six: 10 <= N <= 16; one in 30: 21 <= N <= 28): graph sizes go up and down within capacity; families: edgeless, complete, cycle, complete bipartite, complete multipartite, unions of cliques and their complements, rook graphs, random regular graphs, two copies of a random graph, circulants, planted automorphisms, relabelled copy of the previous graph, random densities; some requests carry vertex classes (an ordered partition, classes ascending) and some are 'interrupted' (CheckViability with tape-drawn ViableBits, which may return early and leave the partition mid-search before the next Reset). " +
+		Rule: "a case is one seeded history of up to 14 labelling requests through ONE reused CanonicalStorage/CanonicalOrderedPartition/CanonicalOptions triple of tape-chosen capacity N <= 9 (one history in six: 10 <= N <= 16; one in 30: 21 <= N <= 28): graph sizes go up and down within capacity; families: edgeless, complete, cycle, complete bipartite, complete multipartite, unions of cliques and their complements, rook graphs, random regular graphs (half of them only 0-3 switches away from a circulant), named symmetric graphs (hypercubes, Petersen and generalised Petersen graphs, prisms, Moebius ladders, tori, Paley graphs) with 0-2 edge switches and sometimes one pair toggled, two copies of a random graph, circulants, planted automorphisms, relabelled copy of the previous graph, random densities; some requests carry vertex classes (an ordered partition, classes ascending) and some are 'interrupted' (CheckViability with tape-drawn ViableBits, which may return early and leave the partition mid-search before the next Reset). " +
 			"Each answer must equal the same call on fresh storage and CanonicalIsomorphFull (perm, orbit partition, generator list), perm must be a permutation, and for groups of up to 60000 elements brute force over all (class-preserving) automorphisms must confirm orbits = orbits of Aut(g), every generator in Aut(g), closure of the generators = Aut(g). Non-trivial = at least 3 requests with at least one size change; distinct = distinct fingerprints of the observed answers.",
 		Assumptions: []string{
 			"the caller protocol of the search package is followed: Reset(n, m, classes) before every call, sizes within the capacity the pair was created with, n >= 1",
